@@ -33,7 +33,7 @@ def tip_cross_section3(self: ThreeRollPass) -> Polygon:
 
 @ThreeRollPass.inscribed_circle_diameter
 def inscribed_circle_diameter_from_gap(self: ThreeRollPass) -> float:
-    if self.has_set_or_cached("gap"):
+    if self.has_value("gap"):
         half = self.roll.groove.usable_width / 2 / np.sqrt(3) + self.gap / np.sqrt(3) + self.roll.groove.depth
         return half * 2
 
